@@ -94,7 +94,9 @@ PROPS = {
                 "Stream `floatties`: sibling rows that tie in exact arithmetic through addends differing in number, order, sign and magnitude over many periods (instalments against lump sums, subtrees, several commodities, monthly two-decimal prices) "
                 "under balance (valued / unvalued, every interval, --diff, -m, -s) and portfolio weights (tied commodities; --universe classes collapsed by -m), 24 / 60 runs each: a float sum taken in map order shows as rows that change places. "
                 "Stream `period`: journals split over 2-6 files of very different or equal sizes whose first / last dated directives are of every kind (price, open, assertion, transaction, close) and live in files other than the transactions, "
-                "under balance (valued / unvalued, intervals, --diff, --last, --from / --to), register, portfolio weights / returns, 16 / 40 runs each: the report period (a fold over the directives in file arrival order) must not depend on the schedule.",
+                "under balance (valued / unvalued, intervals, --diff, --last, --from / --to), register, portfolio weights / returns, 16 / 40 runs each: the report period (a fold over the directives in file arrival order) must not depend on the schedule. "
+                "Stream `targets`: transactions with every shape of `@performance(...)` annotation (0-8 entries, repeated entries, the bookings' own commodities, case variants, blanks, with @accrue; one file or an include tree) under print, balance, "
+                "portfolio returns, transcode, register — the same richer annotations are drawn (from RNGs of their own) for the journals of `repeat`, `failing`, `arrival` and `period`: the target list must come out as written on every run.",
         "assumptions": [],
     },
     "C05": {
